@@ -204,7 +204,12 @@ func (r *rw) pre(n ast.Node) ast.Node {
 // post rewrites simple constructs after their children.
 func (r *rw) post(n ast.Node) ast.Node {
 	switch x := n.(type) {
+	case *ast.DeferStmt:
+		// the call sits in a pointer-typed slot: apply in-place rewrites (close, GOMAXPROCS)
+		r.post(x.Call)
+		return nil
 	case *ast.GoStmt:
+		r.post(x.Call)
 		return r.rewriteGo(x)
 	case *ast.SendStmt:
 		return &ast.ExprStmt{X: r.call("Send", x.Chan, x.Value)}
@@ -215,13 +220,26 @@ func (r *rw) post(n ast.Node) ast.Node {
 	case *ast.CallExpr:
 		if id, ok := x.Fun.(*ast.Ident); ok && id.Name == "close" && len(x.Args) == 1 {
 			if obj := r.info.Uses[id]; obj == nil || obj.Pkg() == nil {
-				return r.call("Close", x.Args[0])
+				// mutate in place: the call may sit in a non-interface slot (defer/go)
+				r.used = true
+				r.counts["Close"]++
+				x.Fun = sel("vsched", "Close")
+				return nil
+			}
+		}
+		if id, ok := x.Fun.(*ast.Ident); ok && id.Name == "make" && len(x.Args) >= 1 {
+			if _, isChan := x.Args[0].(*ast.ChanType); isChan {
+				return r.call("MakeChan", x)
 			}
 		}
 		if s, ok := x.Fun.(*ast.SelectorExpr); ok {
 			if p, ok := s.X.(*ast.Ident); ok && p.Name == "runtime" && s.Sel.Name == "GOMAXPROCS" && len(x.Args) == 1 {
 				if lit, ok := x.Args[0].(*ast.BasicLit); ok && lit.Value == "0" {
-					return r.call("GOMAXPROCS")
+					r.used = true
+					r.counts["GOMAXPROCS"]++
+					x.Fun = sel("vsched", "GOMAXPROCS")
+					x.Args = nil
+					return nil
 				}
 			}
 		}
@@ -439,6 +457,10 @@ func main() {
 			case *ast.UnaryExpr:
 				if x.Op == token.ARROW {
 					allErrs = append(allErrs, fmt.Sprintf("%s: raw channel receive left after rewriting", names[i]))
+				}
+			case *ast.CallExpr:
+				if id, ok := x.Fun.(*ast.Ident); ok && id.Name == "close" {
+					allErrs = append(allErrs, fmt.Sprintf("%s: raw close() left after rewriting", names[i]))
 				}
 			case *ast.ImportSpec:
 				if x.Path.Value == `"sync"` || x.Path.Value == `"sync/atomic"` {
